@@ -353,7 +353,13 @@ fn apply(st: &mut St, op: &J) -> Result<Map<String, J>, csl::JsError> {
         "SetAux" => {
             let mut md = csl::GeneralTransactionMetadata::new();
             md.insert(&bn_of(&op["label_n"]), &csl::TransactionMetadatum::new_text("x".repeat(op["len"].as_u64().unwrap_or(3) as usize))?);
-            st.tb.set_metadata(&md);
+            if op.get("alonzo").and_then(|x| x.as_bool()).unwrap_or(false) {
+                // metadata-only auxiliary data kept in the post-Alonzo (tag 259) format
+                let mut aux = csl::AuxiliaryData::new();
+                aux.set_metadata(&md);
+                aux.set_prefer_alonzo_format(true);
+                st.tb.set_auxiliary_data(&aux);
+            } else { st.tb.set_metadata(&md); }
         }
         "SetFee" => st.tb.set_fee(&bn_of(&op["n"])),
         "SetMinFee" => st.tb.set_min_fee(&bn_of(&op["n"])),
@@ -581,7 +587,7 @@ pub fn gen(rng: &mut Rng) -> J {
     }
     if rng.chance(1, 6) { ops.push(json!({"op": "SetDonation", "n": jn(1 + rng.below(3_000_000))})); ops.push(json!({"op": "SetTreasury", "n": jn(1_000_000_000)})); }
     if rng.chance(1, 5) { ops.push(json!({"op": "AddRequiredSigner", "k": 1 + rng.below(12)})); }
-    if rng.chance(1, 5) { ops.push(json!({"op": "SetAux", "label_n": jn(rng.below(1000)), "len": 1 + rng.below(60)})); }
+    if rng.chance(1, 4) { ops.push(json!({"op": "SetAux", "label_n": jn(rng.below(1000)), "len": 1 + rng.below(60), "alonzo": rng.chance(1, 2)})); }
     if rng.chance(1, 5) { ops.push(json!({"op": "SetTtl", "n": jn(rng.edge_u64())})); }
     if rng.chance(1, 8) { ops.push(json!({"op": "SetMinFee", "n": jn(150_000 + rng.below(400_000))})); }
     // collateral: inputs (pure ADA or asset-carrying), then one of the three helpers (before or after balancing)
